@@ -191,9 +191,11 @@ func (collection *linkCollectionImpl) GetLinks(tx *bbolt.Tx, id string) []string
 }
 
 func (collection *linkCollectionImpl) IterateLinks(tx *bbolt.Tx, id []byte) ast.SeekableSetCursor {
-	fieldBucket := collection.getFieldBucket(tx, id)
-	if !fieldBucket.HasError() {
-		return fieldBucket.IterateStringList()
+	// read-only lookup: iterating must not create the link bucket when used inside a write transaction
+	if entityBucket := collection.field.GetStore().GetEntityBucket(tx, id); entityBucket != nil {
+		if fieldBucket := entityBucket.GetPath(collection.field.GetPath()...); fieldBucket != nil && !fieldBucket.HasError() {
+			return fieldBucket.IterateStringList()
+		}
 	}
 	return ast.EmptyCursor
 }
